@@ -97,13 +97,21 @@ func (s bitmap64) And(provider Provider[uint64]) {
 		s.bitmap.And(typedProvider.bitmap)
 
 	case Duplex[uint64]:
+		// Collect first, remove afterwards: removing from the bitmap while iterating over it makes the
+		// iterator skip elements (and whole containers).
+		var removals []uint64
+
 		s.Each(func(nextValue uint64) bool {
 			if !typedProvider.Contains(nextValue) {
-				s.Remove(nextValue)
+				removals = append(removals, nextValue)
 			}
 
 			return true
 		})
+
+		for _, value := range removals {
+			s.Remove(value)
+		}
 	}
 }
 func (s bitmap64) Or(provider Provider[uint64]) {
@@ -135,12 +143,20 @@ func (s bitmap64) AndNot(provider Provider[uint64]) {
 		s.bitmap.AndNot(typedProvider.bitmap)
 
 	case Duplex[uint64]:
+		// Collect first, remove afterwards: removing from the bitmap while iterating over it makes the
+		// iterator skip elements (and whole containers).
+		var removals []uint64
+
 		s.Each(func(nextValue uint64) bool {
 			if typedProvider.Contains(nextValue) {
-				s.Remove(nextValue)
+				removals = append(removals, nextValue)
 			}
 
 			return true
 		})
+
+		for _, value := range removals {
+			s.Remove(value)
+		}
 	}
 }
